@@ -274,13 +274,17 @@ def loop_current_check(case, wr, so, sn):
     new = {e['name']: e for e in wr.get('new', [])}
     if len(members) < 2 or not members <= set(orig) or members & set(new):
         return None
-    firsts = [ent[1][0] for ent in wr.get('log', []) if ent[0] == 'list' and set(ent[1]) == members]
-    if len(firsts) != 1:
-        return None
-    nw = lambda d: sum(1 for e in d.values() if e['type'] == 'W')
-    if nw(new) - nw(orig) != len(members) - 1:
-        return None                      # not one series combination of the whole group
-    first = orig[firsts[0]]
+    # the _do_simplify_combine calls on exactly this group, with the kind of the stage they ran in
+    # (a `list` entry of the whole group is logged by _do_simplify_combine only)
+    kind, calls = None, []
+    for ent in wr.get('log', []):
+        if ent[0] == 'stage':
+            kind = ent[1]
+        elif ent[0] == 'list' and set(ent[1]) == members:
+            calls.append((kind, ent[1][0]))
+    if len(calls) != 1 or calls[0][0] != 'series':
+        return None                      # not one series combination of the whole group (e.g. combined in parallel)
+    first = orig[calls[0][1]]
     cand = [e for n_, e in new.items() if n_ not in orig and e['type'] == first['type'] and e['nodes'] == first['nodes']]
     if len(cand) != 1:
         return None
